@@ -122,6 +122,10 @@ def r2_k_opposite_q(ctx):
     src = m.source
     ctx.check("np.multiply.reduce(bases ** exponents, axis=-1)" in src and "res *= b ** e" in src and "for b, e in zip(bases, row)" in src, UTIL + ":prodpow", "prod(base**exp)",
               "prodpow must be the product over substances of base ** exponent per row", node=pps[0] if pps else None)
+    if pps:
+        ex = [n for n in walk_shallow(pps[0]) if isinstance(n, ast.Assign) and U(n.targets[0]) == "exponents"]
+        ctx.check(len(ex) == 1 and same(ex[0].value, "np.asarray(exponents)"), UTIL + ":prodpow", "exponents-unchanged",
+                  "the exponents must be used as given (np.asarray(exponents)); a cast such as .astype(int) truncates the fractional exponents of a row-reduced system: %s" % [U(x.value) for x in ex], node=pps[0])
     eqq = ctx.func(CHEM, "equilibrium_quotient")
     ctx.check(has(eqq, "for nr, conc in zip(stoich, concs): tot *= conc ** nr") and has(eqq, "return tot"), CHEM + ":equilibrium_quotient", "Q=prod(c**nu)", "equilibrium_quotient must be the product of conc ** coefficient", node=eqq)
     # rref: log before, exp after
@@ -417,6 +421,8 @@ MUTANTS = [
     Mutant("log-pre-log10", [(EQS, "            np.log(np.asarray(x) + NumSysLog.small),  # 10: damping", "            np.log10(np.asarray(x) + NumSysLog.small),  # 10: damping")], "C07-R3b", "NumSysLog"),
     Mutant("vecdot-max", [(UTIL, "return reducemap((vec1, vec2), add, mul)", "return reducemap((vec1, vec2), mul, add)")], "C07-R2", "sum-of-products"),
 ]
+
+MUTANTS.append(Mutant("prodpow-int-exponents", [(UTIL, "        exponents = np.asarray(exponents)\n", "        exponents = np.asarray(exponents).astype(np.int64)\n")], "C07-R2", "exponents-unchanged"))
 
 TWINS = [
     Twin("square-mul-form", [(EQS, "        return x ** 2, params", "        return x * x, params")]),
